@@ -151,7 +151,10 @@ def gen(rng, tier):
                         exp += expect(comments, path)
                 files.sort(key=lambda f: f["path"].split("/"))
                 exp.sort(key=lambda e: (e["Filename"].split("/"), e["Line"]))
-                sh.append({"op": "todo", "files": files, "filters": filters, "expected": exp})
+                c = {"op": "todo", "files": files, "filters": filters, "expected": exp}
+                if rng.random() < (0.06 if tier == "quick" else 0.01):
+                    c["cli"] = True      # through the real `coca todo -p dir -e exts` in a fresh process (coca_reporter/simple-todos.json)
+                sh.append(c)
             else:
                 text = "".join(rng.choice(SOUP) for _ in range(rng.choice([1, 2, 3, 5, 9, 20])))
                 sh.append({"op": "todo", "files": [{"path": "soup.java", "content": text}], "filters": [".java"]})
